@@ -14,4 +14,59 @@ package main
 //@   ensures  [mult] result % a == 0
 //@   pure
 
-//@ ghost offspec(fs []st.Field, i int) int64 = i <= 0 ? 0 : offspec(fs, i-1) + fs[i-1].Size
+// endof(fs, i): offset just after field i-1 when fs[0..i) are laid out in order, each at the
+// next multiple of its alignment.
+//@ ghost endof(fs []st.Field, i int) int64 = i <= 0 ? 0 : align(endof(fs, i-1), fs[i-1].Align) + fs[i-1].Size
+
+//@ ghost wfFields(fs []st.Field) bool = forall j int :: {fs[j]} 0 <= j && j < len(fs) ==> fs[j].Align > 0 && fs[j].Size >= 0
+
+//@ lemma endof_nonneg(fs []st.Field, i int)
+//@   requires wfFields(fs) && 0 <= i && i <= len(fs)
+//@   ensures  endof(fs, i) >= 0
+//@   induct   i
+
+//@ func offsetsof
+//@   requires wfFields(fields)
+//@   ensures  [len] len(result) == len(fields)
+//@   ensures  [off] forall j int :: {result[j]} 0 <= j && j < len(fields) ==> result[j] == align(endof(fields, j), fields[j].Align)
+//@   loop 1   invariant [o] o == endof(fields, i) && o >= 0
+//@   loop 1   invariant [len] len(offsets) == len(fields)
+//@   loop 1   invariant [done] forall j int :: {offsets[j]} 0 <= j && j < i ==> offsets[j] == align(endof(fields, j), fields[j].Align)
+
+//@ ghost sumsize(fs []st.Field, i int) int64 = i <= 0 ? 0 : sumsize(fs, i-1) + fs[i-1].Size
+
+//@ func size
+//@   ensures  [sum] result == sumsize(fields, len(fields))
+//@   loop 1   index k
+//@   loop 1   invariant n == sumsize(fields, k)
+
+//@ func (*byAlignAndSize).Len
+//@   requires s != nil
+//@   ensures  result == len(s.fields)
+//@   pure
+
+//@ func (*byAlignAndSize).Swap
+//@   requires s != nil && 0 <= i && i < len(s.fields) && 0 <= j && j < len(s.fields)
+//@   modifies s.fields
+//@   ensures  [len] len(s.fields) == len(old(s.fields))
+//@   ensures  [i] s.fields[i] == old(s.fields[j])
+//@   ensures  [j] s.fields[j] == old(s.fields[i])
+//@   ensures  [rest] forall k int :: 0 <= k && k < len(s.fields) && k != i && k != j ==> s.fields[k] == old(s.fields[k])
+
+// lessF is the order the documentation of Less describes: zero-sized first, then by
+// descending alignment, then by descending size.
+//@ ghost lessF(a st.Field, b st.Field) bool = (a.Size == 0 && b.Size != 0) || (!(b.Size == 0 && a.Size != 0) && (a.Align > b.Align || (a.Align == b.Align && a.Size > b.Size)))
+
+//@ func (*byAlignAndSize).Less
+//@   requires s != nil && 0 <= i && i < len(s.fields) && 0 <= j && j < len(s.fields)
+//@   ensures  [spec] result == lessF(s.fields[i], s.fields[j])
+
+// strict weak order: irreflexive, transitive, incomparability transitive
+//@ lemma less_irreflexive(a st.Field)
+//@   ensures !lessF(a, a)
+//@ lemma less_transitive(a st.Field, b st.Field, c st.Field)
+//@   requires lessF(a, b) && lessF(b, c)
+//@   ensures  lessF(a, c)
+//@ lemma less_incomparable_transitive(a st.Field, b st.Field, c st.Field)
+//@   requires !lessF(a, b) && !lessF(b, a) && !lessF(b, c) && !lessF(c, b)
+//@   ensures  !lessF(a, c) && !lessF(c, a)
